@@ -414,10 +414,13 @@ func (w *World) balanceOracle(n *Node, addr string, got spice.Melange, err error
 		var cvs []*accountant.Vertex
 		for i := range s.CpVertices {
 			v := &s.CpVertices[i]
-			cvs = append(cvs, v)
 			if isGenesisVertex(v) {
 				complete = true
 			}
+			if live[v.Hash] != nil {
+				continue // archived by an interrupted truncation but still in the live DAG: not checkpointed yet
+			}
+			cvs = append(cvs, v)
 		}
 		if complete {
 			in, out := flow(addr, cvs)
